@@ -384,6 +384,49 @@ Proof.
   intros A a x b. induction a as [| y a IHa]; [reflexivity | exact IHa].
 Qed.
 
+Lemma take_plain_spec : forall ts p rest,
+  take_plain ts = (p, rest) -> ts = p ++ rest /\ forallb plain p = true.
+Proof.
+  induction ts as [| t r IHr]; intros p rest H; simpl in H.
+  - inversion H. split; reflexivity.
+  - destruct (plain t) eqn:Hp.
+    + destruct (take_plain r) as [p' rest'] eqn:Htp. inversion H; subst p rest. clear H.
+      destruct (IHr p' rest' eq_refl) as [E Hf]. split.
+      * simpl. rewrite <- E. reflexivity.
+      * simpl. rewrite Hp, Hf. reflexivity.
+    + inversion H. split; reflexivity.
+Qed.
+
+Lemma init_len_split : forall ts n, init_len ts = Some n ->
+  exists pre o flat c post semi r,
+    ts = (pre ++ o :: flat ++ c :: post ++ [semi]) ++ r /\
+    n = length (pre ++ o :: flat ++ c :: post ++ [semi]) /\
+    pre <> [] /\ forallb plain pre = true /\ is_lbrace o = true /\ forallb plain flat = true /\ is_rbrace c = true /\
+    inner post /\ is_symbol semi semicolon = true.
+Proof.
+  intros ts n H. unfold init_len in H.
+  destruct (take_plain ts) as [pre r1] eqn:Hp1.
+  destruct r1 as [| o r2]; [discriminate |].
+  destruct (is_lbrace o) eqn:Ho; [| discriminate].
+  destruct (Nat.eqb (length pre) 0) eqn:Hne; [discriminate |]. cbn [negb andb] in H.
+  destruct (take_plain r2) as [flat r3] eqn:Hp2.
+  destruct r3 as [| c r4]; [discriminate |].
+  destruct (is_rbrace c) eqn:Hc; [| discriminate].
+  destruct (stmt_len r4 0) as [m |] eqn:Hsl; [| discriminate].
+  destruct (inner_b (firstn (m - 1) r4)) eqn:Hin; [| discriminate].
+  inversion H; subst n. clear H.
+  apply take_plain_spec in Hp1. destruct Hp1 as [E1 Hpre].
+  apply take_plain_spec in Hp2. destruct Hp2 as [E2 Hflat].
+  apply stmt_len_split in Hsl. destruct Hsl as (post & semi & r & E4 & Em & Hsemi).
+  assert (Efirst : firstn (m - 1) r4 = post).
+  { subst m r4. cbn [Nat.sub]. rewrite Nat.sub_0_r. apply firstn_app_exact. }
+  rewrite Efirst in Hin. apply inner_b_sound in Hin.
+  exists pre, o, flat, c, post, semi, r. repeat split; try assumption.
+  - rewrite E1, E2, E4. list_norm. reflexivity.
+  - subst m. rewrite !app_length. cbn [length]. rewrite !app_length. cbn [length]. rewrite !app_length. cbn [length]. lia.
+  - intros Epre. subst pre. discriminate.
+Qed.
+
 Lemma items_of_off_eq : forall l o1 o2 ts ds, items_of l o1 ts ds -> o1 = o2 -> items_of l o2 ts ds.
 Proof. intros l o1 o2 ts ds H E. subst o2. exact H. Qed.
 
@@ -415,6 +458,18 @@ Proof.
     - apply io_stmt.
       + exists body, semi. repeat split; assumption.
       + apply (items_of_off_eq _ _ _ _ _ Hitems). rewrite app_length. cbn [length]. lia. }
+  destruct (init_len ts) as [n |] eqn:Hil.
+  { (* a statement with a brace initialiser *)
+    apply init_len_split in Hil.
+    destruct Hil as (pre & o & flat & c & post & semi & r & Ets & En & Hne & Hpre & Ho & Hflat & Hc & Hpost & Hsemi).
+    assert (Eskip : skipn n ts = r).
+    { rewrite En, Ets. apply skipn_app_exact. }
+    rewrite Eskip in H. apply IHf in H. destruct H as (used & Er & Hitems).
+    exists (pre ++ o :: flat ++ c :: post ++ semi :: used). split.
+    - rewrite Ets, Er. list_norm. reflexivity.
+    - apply io_init; try assumption.
+      apply (items_of_off_eq _ _ _ _ _ Hitems). rewrite En.
+      rewrite !app_length. cbn [length]. rewrite !app_length. cbn [length]. rewrite !app_length. cbn [length]. lia. }
   (* a braced item *)
   destruct (parse_head l ts) as [[hk rest1] |] eqn:Hph; [| discriminate].
   destruct rest1 as [| o bm]; [discriminate |].
